@@ -2,6 +2,7 @@ package mvp8_0
 
 import (
 	"fmt"
+	"sync"
 
 	co "github.com/teivah/majorana/common/coroutine"
 	"github.com/teivah/majorana/common/latency"
@@ -50,6 +51,9 @@ type cacheController struct {
 
 	// Transient
 	post func()
+	// l3FillLock is the L3 line lock held by the read in progress while it
+	// fills the line (released by flush if the read is cancelled)
+	l3FillLock *sync.Mutex
 }
 
 func newCacheController(id int, ctx *risc.Context, mmu *memoryManagementUnit, msi *msi, l3 *comp.LRUCache) *cacheController {
@@ -260,10 +264,12 @@ func (cc *cacheController) coRead(r ccReadReq) ccReadResp {
 								if !mu.TryLock() {
 									return ccReadResp{}
 								}
+								cc.l3FillLock = mu
 
 								return cc.read.ExecuteWithCheckpointAfter(r, latency.L3Access, func(r ccReadReq) ccReadResp {
 									shouldEvict := cc.pushLineToL3(l3Addr, l3Data)
 									mu.Unlock()
+									cc.l3FillLock = nil
 									if shouldEvict != nil {
 										pending := cc.msi.evictL3ExtraCacheLine(cc.id, shouldEvict.Boundary[0])
 										cc.read.Checkpoint(func(r ccReadReq) ccReadResp {
@@ -489,6 +495,10 @@ func (cc *cacheController) writeToL3(l1Addr comp.AlignedAddress, data []int8) {
 func (cc *cacheController) flush() {
 	cc.read.Reset()
 	cc.write.Reset()
+	if cc.l3FillLock != nil {
+		cc.l3FillLock.Unlock()
+		cc.l3FillLock = nil
+	}
 	for k, sem := range cc.l1RLockSems {
 		sem.RUnlock()
 		delete(cc.l1RLockSems, k)
